@@ -10,7 +10,9 @@ its start cell (Cell accessor of ct.start) with the content unchanged, a single 
 CellText at the cell origin (0,0) of its own cell, absolute positions add the cell, and merging
 concatenates in column order; F4 a character occupies max(1, width) columns: the filler loop runs
 1..width pushing NUL, and the escaping table drops NUL.  Not decided: which runs end up merged
-into one element for arbitrary layouts (span grouping)."""
+into one element for arbitrary layouts (span grouping).  F5 every place that measures text in columns
+uses the same per-character function as the row expansion (UnicodeWidthChar::width, max(1, .));
+no other width function (width_cjk, string widths) is used on the conversion path."""
 import re
 
 from ..common import guards, lib_reachable, short, where
@@ -358,6 +360,40 @@ def run(run):
             run.ok("C04.F4", "every character is pushed once, followed by NUL fillers for columns 1..width", where(rng[0]))
         else:
             run.bad("C04.F4", "filler-loop", where(prog.bodies[sb]), "StringBuffer::from: filler range 1..width=%s, NUL pushes=%d, char pushes=%d" % (ok, len(nul), len(chp)))
+    # ---------------- F5 one notion of "columns of a character" everywhere
+    roots5, reach5 = lib_reachable(run, "C04.F5")
+    sites = []
+    for p in sorted(reach5):
+        for bid, t in prog.calls(p):
+            n = Program.callee_name(t)
+            if "unicode_width::" in n or "UnicodeWidth" in n:
+                sites.append((p, t, n))
+    run.floor("C04.F5", "width_call_sites", len(sites), 3)
+    for p, t, n in sites:
+        if re.search(r"<char as unicode_width::UnicodeWidthChar>::width$", n):
+            continue
+        run.bad("C04.F5", "other-width-function/%s" % short(p), where(t),
+                "%s measures text with %s, but the row expansion (StringBuffer::from) gives a character max(1, UnicodeWidthChar::width) columns: the two notions of a column disagree for some characters" % (short(p), n.split("::")[-1] if "::" in n else n))
+    canon = 0
+    for p, t, n in sites:
+        if not re.search(r"<char as unicode_width::UnicodeWidthChar>::width$", n):
+            continue
+        if sb and p == sb:
+            continue   # the filler loop, checked under F4
+        r = [strip(x) for x in Expr(prog, p).returns()]
+        ok = len(r) == 1 and mentions(r[0], lambda z: z[0] == "call" and z[1].endswith("Ord::max") and any(is_const(a, 1) for a in z[2])) and \
+            mentions(r[0], lambda z: z[0] == "call" and z[1].endswith("unwrap_or") and is_const(z[2][1], 1) and
+                     strip(z[2][0])[0] == "call" and strip(z[2][0])[1].endswith("UnicodeWidthChar>::width") and strip(strip(z[2][0])[2][0])[0] == "param")
+        # nothing but max / unwrap_or / width / cast may shape the value
+        extra = []
+        mentions(r[0] if r else (), lambda z: z[0] == "call" and not re.search(r"Ord::max$|unwrap_or$|UnicodeWidthChar>::width$", z[1]) and extra.append(z[1]) and False)
+        extra_bin = mentions(r[0] if r else (), lambda z: z[0] == "bin")
+        if ok and not extra and not extra_bin:
+            canon += 1
+            run.ok("C04.F5", "%s counts a character as max(1, width) columns, like the row expansion" % short(p), where(t))
+        else:
+            run.bad("C04.F5", "column-function/%s" % short(p), where(t),
+                    "%s derives columns from the character width as `%s`, not as max(1, width(ch).unwrap_or(1)) like the row expansion" % (short(p), expr_str(r[0])[:140] if r else "?"))
     # NUL is dropped by the escaping table (shared with C02)
     from ..sinks import SinkAnalysis
     sa = SinkAnalysis(run, "C04")
